@@ -1348,6 +1348,23 @@ def probe_cases(spec, i):
     return out
 
 
+def staircase_case(spec):
+    """boundary sweep over the WHOLE grid (model correspondence of every evaluate, no oracles): climbing cell by cell, each
+    grid point is approached from the cell below — midpoint of the cell, the float just below the grid point, the grid point
+    itself, the float just above it.  Floating-point sums such as x0 + delta are exact at some grid points and one ulp off at
+    others, so a boundary probe at a single grid point says nothing about the rest."""
+    cf = _cf()
+    gv = cf.grid_values(spec)
+    K = spec['K']
+    ops = []
+    for k in range(1, len(gv) - 2):
+        g = float(gv[k])
+        for x in (g - 0.05, float(np.nextafter(g, -np.inf)), g, float(np.nextafter(g, np.inf))):
+            ops.append(['E', 2.5, [x] * K])
+    sp = dict(spec, product=None, J=1, reuse_fp=False, dY=False, norm=False)
+    return dict(spec=sp, d0=0, s0=0, ops=ops, final=['grad2raw', 2.5], corr_only=True)
+
+
 def i3_specs():
     return [dict(graph='i3', K=K, order=o, interp=i) for K in (1, 2) for o in ('first', 'second')
             for i in ('linear', 'parabola')]
@@ -1488,6 +1505,10 @@ def run(ctx):
             ctx.count('directed probes')
         for _ in range(per_spec):
             cases.append((gen_case(ctx, spec, maxlen), False))
+    for sp in specs:
+        if sp['K'] == 1 and sp['fields'] == 'none' and (sp['cache'] or ctx.thorough):
+            cases.append((staircase_case(sp), False))
+            ctx.count('boundary sweeps over the whole grid')
     # PDFRatioProduct around the real SplinedI3EnergySigSetOverBkgPDFRatio (oracles only; no Lean model of this graph)
     i3_cases = [dict(spec=sp, d0=0, s0=0, ops=[['E', 2.5, [2.13] * sp['K']]], final=['eval', 2.5, [2.13] * sp['K']])
                 for sp in i3_specs()]
@@ -1526,7 +1547,7 @@ def run(ctx):
     t_ph = _time.time()
     tcases = []
     for case, is_w in cases:
-        if case['final'][0] in ('maximize', 'grad2multi_raw') or ctx.rng.random() >= ctx.n(0.1, 0.5):
+        if case.get('corr_only') or case['final'][0] in ('maximize', 'grad2multi_raw') or ctx.rng.random() >= ctx.n(0.1, 0.5):
             continue
         case = dict(case, spec=dict(case['spec'], J=1, product=None))     # the modelled upper layers: one dataset, no product
         (lops, broke) = top_ops(case, ctx.rng)
@@ -1548,7 +1569,7 @@ def run(ctx):
             tcases.append((c, [['G', 2.5], ['E', 2.5, p], ['L'], ['E', 2.5, p], ['G', 2.5]], True, False))
     ccases = []
     for case, is_w in cases:
-        if case['final'][0] == 'maximize' or ctx.rng.random() >= ctx.n(0.07, 0.4):
+        if case.get('corr_only') or case['final'][0] == 'maximize' or ctx.rng.random() >= ctx.n(0.07, 0.4):
             continue
         case = dict(case, spec=dict(case['spec'], J=2, product=None))
         (lops, broke) = comp_ops(case, ctx.rng)
@@ -1609,6 +1630,8 @@ def run(ctx):
             ctx.count('op:' + op[0] + (':' + '/'.join(op[2:4]) if op[0] == 'S' and len(op) >= 4 else ''))
         ctx.count('final:' + c['final'][0])
     for ci, (case, is_w) in enumerate(cases + [(c, False) for c in i3_cases]):
+        if case.get('corr_only'):
+            continue
         for name in ('fresh_vs_used', 'cache_onoff', 'cache_snapshot', 'trace_fresh', 'repeat_final', 'arg_forms'):
             if name == 'arg_forms' and not ((case['spec'].get('fp_form') or case['spec'].get('scribble'))
                                              and ctx.rng.random() < ctx.n(0.2, 0.6)):
